@@ -230,6 +230,15 @@ func c20Opts() (gen.TypeOpts, gen.ValueOpts) {
 	leaf := []reflect.Type{gen.TString, gen.TBool, gen.TInt, gen.TInt8, gen.TInt16, gen.TInt32, gen.TInt64, gen.TUint, gen.TUint16, gen.TUint32, gen.TUint64, gen.TFloat32, gen.TFloat64, gen.TString, gen.TInt}
 	to := gen.TypeOpts{MaxFields: 6, MaxDepth: 3, Leaf: leaf, Unexported: true, EmptyStruct: true, Ptr: true, Slices: true, Arrays: true, Maps: true, SliceOfSlice: true, ContainerOfLeaf: true}
 	vo := gen.ValueOpts{PZero: 0.2, PEmpty: 0.2, MaxLen: 3, NilElems: true,
+		Str: func(rng *rand.Rand) string {
+			if rng.Intn(6) != 0 {
+				return gen.DefaultStr(rng)
+			}
+			// characters that are legal inside a JSON string WITHOUT an escape but that string
+			// quoting routines written for other syntaxes treat specially
+			rare := []string{"\x7f", "\U000F0000", "\U000E0001", "\u00ad", "\u2028", "😀", "\u200b", "\ufeff", "'", "<>&", "/"}
+			return gen.DefaultStr(rng) + rare[rng.Intn(len(rare))] + gen.DefaultStr(rng)
+		},
 		Float: func(rng *rand.Rand, bits int) float64 {
 			if bits == 32 {
 				return float64(rng.Intn(40000)-20000) / 8
@@ -286,6 +295,26 @@ func runC20(c *core.Ctx) {
 		M map[string]E
 	}
 	type MS struct{ M map[string]int }
+	type BigE struct {
+		S     []E
+		After FirstU
+		M     map[int]E
+		P     *FirstU
+		L     []FirstU
+		Set   map[string]struct{}
+		Last  E
+	}
+	for _, n := range []int{126, 127, 128, 130, 300, 1000} {
+		b := BigE{S: make([]E, n), After: FirstU{1, "after"}, M: map[int]E{}, P: &FirstU{2, "p"}, L: []FirstU{{3, "l"}}, Set: map[string]struct{}{}}
+		for k := 0; k < n; k++ {
+			b.M[k] = E{}
+			b.Set[fmt.Sprint("k", k)] = struct{}{}
+		}
+		c20One(res, b, reflect.ValueOf(b), -1)
+		w := struct{ L []BigE }{[]BigE{b, b}} // the dumper's input is a struct (or a pointer to one)
+		c20One(res, w, reflect.ValueOf(w), -1)
+		res.Count("many_empty_structs_cases")
+	}
 	type PS struct{ S []*FirstU }
 	for _, in := range []interface{}{E{}, &E{}, OnlyU{1, 2}, FirstU{1, "x"}, WithE{}, WithE{P: &E{}, S: []E{{}, {}}, M: map[string]E{"a": {}}}, MS{map[string]int{"a": 1, "b": 2}}, PS{[]*FirstU{nil, {1, "y"}}}, (*E)(nil)} {
 		c20One(res, in, reflect.Indirect(reflect.ValueOf(in)), -1)
